@@ -50,3 +50,13 @@ Record opt_rule := {
   o_iface : string;                (* "applyFeature" | "applyNotes" *)
   o_reject : option (Z * Z);       (* Some (lo, hi): error unless lo <= n <= hi *)
   o_expr : sexpr }.
+
+(* getFromAPI as the sequence of its effectful calls, in source order.  [err_returns]: the
+   error of the call makes getFromAPI return it. *)
+Inductive step :=
+| SWait (guarded err_returns : bool)          (* [if ds.Limiter != nil] ds.Limiter.Wait(ctx) *)
+| SNewRequest (http_method : string) (err_returns : bool)   (* http.NewRequest(m, url, nil) *)
+| SDo (with_ctx err_returns : bool)           (* client.Do(req[.WithContext(ctx)]) *)
+| SClose                                      (* defer resp.Body.Close() *)
+| SStatus                                     (* the status chain (status_rules / ok / other) *)
+| SDecode.                                    (* return xml.NewDecoder(resp.Body).Decode(item) *)
